@@ -302,6 +302,7 @@ class FX:
         self.inline_classes = set(inline_classes)
         self.no_inline = set(no_inline)
         self.entry_returns = {}
+        self.numeric = set()
         self.localdefs = {}
         self.assigns = []
         self.trans = []
@@ -460,6 +461,17 @@ class FX:
             return bool(last.orelse) and self._terminal(last.body) and self._terminal(last.orelse)
         return False
 
+    def _raises(self, body):
+        """the block always ends in `raise` (input validation): not a configuration of the design"""
+        if not body:
+            return False
+        last = body[-1]
+        if isinstance(last, ast.Raise):
+            return True
+        if isinstance(last, ast.If):
+            return bool(last.orelse) and self._raises(last.body) and self._raises(last.orelse)
+        return False
+
     def _exec_block(self, body, env):
         pushed = 0
         try:
@@ -487,13 +499,14 @@ class FX:
         return None
 
     def _x_Return(self, st, env):
-        if self.pyguards_at_entry is not None and len(self.pyguards) > self.pyguards_at_entry:
+        if len(self.pyguards) > (self.pyguards_at_entry or 0):
             # conditional return: record value, continue under negated condition (handled by caller)
-            self._cond_returns.append(self._value(st.value, env) if st.value is not None else None)
+            self._cond_returns.append((list(self.pyguards[(self.pyguards_at_entry or 0):]),
+                                       self._value(st.value, env) if st.value is not None else None))
             return None
         raise _Return(self._value(st.value, env) if st.value is not None else None)
 
-    pyguards_at_entry = None
+    pyguards_at_entry = 0
     _cond_returns = []
 
     def _x_Raise(self, st, env):
@@ -625,9 +638,9 @@ class FX:
         self._merge(env, a_env, b_env, tb, te, is_attr=False, cond=cnode, snap=snap_env)
         self._merge(self.attr, a_attr, b_attr, tb, te, is_attr=True, cond=cnode)
         if tb and not te:
-            return pg_f
+            return None if self._raises(st.body) else pg_f
         if te and not tb:
-            return pg_t
+            return None if self._raises(st.orelse) else pg_t
         return None
 
     def _merge(self, out, a, b, ta, tb, is_attr, cond=None, snap=None):
@@ -650,6 +663,8 @@ class FX:
                 elif isinstance(va, ast.AST) and isinstance(vb, ast.AST):
                     if norm(va) == norm(vb):
                         out[k] = va
+                    elif is_attr:
+                        out[k] = _path_ast(k)   # an attribute bound differently on two branches: its own path names it
                     elif snap is not None and isinstance(snap.get(k), ast.Name) and snap[k].id == k:
                         out[k] = snap[k]        # normalisation of a symbolic parameter: stays symbolic
                     elif cond is not None and len(norm(va)) + len(norm(vb)) < 120:
@@ -795,8 +810,41 @@ class FX:
 
     def _assign(self, targets, value, env, st):
         val = self._value(value, env, targets=targets, st=st)
+        if len(targets) == 1 and isinstance(targets[0], ast.Name) and isinstance(val, ast.AST) and \
+                not isinstance(val, (ast.Name, ast.Constant)) and self._is_numeric(val) and len(norm(val)) > 12:
+            self.numeric.add(targets[0].id)
+            self.localdefs[targets[0].id] = val
+            val = ast.Name(id=targets[0].id, ctx=ast.Load())
+        if len(targets) == 1 and isinstance(targets[0], ast.Name) and isinstance(val, ast.AST) and \
+                not isinstance(val, (ast.Name, ast.Constant)) and len(norm(val)) > 90:
+            # long expression bound to a local: keep the local's name (readable IR), remember the definition
+            self.localdefs[targets[0].id] = val
+            val = ast.Name(id=targets[0].id, ctx=ast.Load())
         for t in targets:
             self._store(t, val, env, st, value)
+
+    NUMERIC_FUNCS = {"len", "log2_int", "max", "min", "int", "bits_for", "log2", "ceil", "floor", "abs", "round", "layout_len"}
+
+    def _is_numeric(self, e):
+        """Python-level integer arithmetic (widths, ratios): rooted in len()/log2_int()/... calls or numeric locals."""
+        if isinstance(e, ast.Call) and isinstance(e.func, ast.Name) and e.func.id in self.NUMERIC_FUNCS:
+            return True
+        if isinstance(e, ast.Call) and isinstance(e.func, ast.Attribute) and e.func.attr in ("log2", "ceil", "floor") and \
+                _is_name(e.func.value, "math"):
+            return True
+        if isinstance(e, ast.Name):
+            return e.id in self.numeric
+        if isinstance(e, ast.Constant):
+            return isinstance(e.value, (int, float)) and not isinstance(e.value, bool)
+        if isinstance(e, ast.BinOp) and isinstance(e.op, (ast.Add, ast.Sub, ast.Mult, ast.FloorDiv, ast.Mod, ast.Pow, ast.LShift,
+                                                          ast.RShift, ast.Div)):
+            a, b = self._is_numeric(e.left), self._is_numeric(e.right)
+            if a and b:
+                return not (isinstance(e.left, ast.Constant) and isinstance(e.right, ast.Constant))
+            # one side a plain parameter name (cachesize, ratio): numeric if the other side is
+            if a and isinstance(e.right, ast.Name) or b and isinstance(e.left, ast.Name):
+                return True
+        return False
 
     def _store(self, t, val, env, st, value_node=None):
         if isinstance(t, ast.Name):
@@ -828,7 +876,10 @@ class FX:
             else:
                 for k, tt in enumerate(t.elts):
                     if isinstance(tt, ast.Name):
-                        if isinstance(val, ast.AST):
+                        if isinstance(val, ast.AST) and len(norm(val)) > 40:
+                            self.localdefs[tt.id] = ast.Subscript(value=copy.deepcopy(val), slice=ast.Constant(value=k), ctx=ast.Load())
+                            env[tt.id] = ast.Name(id=tt.id, ctx=ast.Load())
+                        elif isinstance(val, ast.AST):
                             env[tt.id] = ast.Subscript(value=copy.deepcopy(val), slice=ast.Constant(value=k), ctx=ast.Load())
                         else:
                             env[tt.id] = ast.Name(id=tt.id, ctx=ast.Load())
@@ -1202,12 +1253,24 @@ class FX:
         finally:
             self.depth -= 1
             self.pyguards_at_entry, self._cond_returns = saved
-        if r is None and cr:
-            vals = [c for c in cr if c is not None]
-            if len(vals) == 1:
-                return vals[0]
-            if vals:
-                return vals[-1]
+        if cr:
+            vals = [(g, v) for g, v in cr if v is not None]
+            if r is None and len(vals) == 1:
+                return vals[0][1]
+            if vals and all(isinstance(v, ast.AST) for _, v in vals) and (r is None or isinstance(r, ast.AST)):
+                # nested conditional expression over the Python-level conditions of each return
+                out = r if r is not None else vals[-1][1]
+                rest = vals if r is not None else vals[:-1]
+                for g, v in reversed(rest):
+                    txt = " and ".join(("(" + c + ")") if p else ("not (" + c + ")") for c, p in g) or "True"
+                    try:
+                        test = ast.parse(txt, mode="eval").body
+                    except SyntaxError:
+                        test = ast.Name(id="<cond>", ctx=ast.Load())
+                    out = ast.IfExp(test=test, body=copy.deepcopy(v), orelse=copy.deepcopy(out))
+                return out
+            if r is None and vals:
+                return vals[-1][1]
         return r
 
     def _inline_class(self, cname, call, env, nm, wrappers):
@@ -1891,6 +1954,10 @@ class _Canon(ast.NodeTransformer):
             if isinstance(v, ast.AST) and norm(v) != key:
                 return copy.deepcopy(v)
             return n
+        if isinstance(n.func, ast.Name) and isinstance(self.env.get(n.func.id), Closure) and self.fx.depth < self.fx.MAX_INLINE:
+            r = self.fx._inline(self.env[n.func.id], n, self.env, is_method=False)
+            if isinstance(r, ast.AST):
+                return r
         if isinstance(n.func, ast.Name) and isinstance(self.env.get(n.func.id), ast.AST):
             n.func = self.visit(n.func)
         elif isinstance(n.func, ast.Attribute):
